@@ -16,9 +16,11 @@ def renderErrs (es : List Err) : String :=
 
 def dedup (xs : List String) : List String := xs.foldl (fun acc x => if acc.contains x then acc else acc ++ [x]) []
 
+def lastName (n : Nominal) : String := (n.id :: n.nested).getLast?.getD n.id
+
 /-- independent executable oracle (does not use `validate`): in an accepted update every enum nested
-in the contract keeps its cases as a prefix, and every field a nested composite declares was declared
-before (by name) -/
+in the contract keeps its cases as a prefix, every conformance of a nested composite or interface is kept
+(by its last identifier), and every field a nested composite declares was declared before (by name) -/
 def specOk (o n : Decl) : Option String :=
   let kids := fun (d : Decl) => d.composites ++ d.attachments ++ d.interfaces
   (kids o).findSome? fun oc =>
@@ -26,6 +28,9 @@ def specOk (o n : Decl) : Option String :=
     | none => none
     | some nc =>
       if oc.kind == .enum && !(oc.cases.isPrefixOf nc.cases) then some "accepted-update-changes-enum-meaning"
+      else if oc.kind == nc.kind && oc.kind != .attachment && oc.kind != .enum &&
+          oc.confs.any (fun c => !(nc.confs.any fun c' => lastName c' == lastName c)) then
+        some (if oc.kind.isInterface then "interface-conformance-removal-accepted" else "accepted-update-drops-conformance")
       else if nc.fields.any (fun nf => !(oc.fields.any (fun f => f.name == nf.name))) && nc.kind == oc.kind then
         some "accepted-update-adds-field"
       else none
@@ -51,7 +56,7 @@ def ifaceConformanceDropped (o n : Decl) : Bool :=
   o.interfaces.any fun oi =>
     match n.interfaces.find? (fun ni => ni.name == oi.name) with
     | none => false
-    | some ni => oi.confs.any fun oc => !(ni.confs.any fun nc => nc.id == oc.id && nc.nested == oc.nested)
+    | some ni => oi.confs.any fun oc => !(ni.confs.any fun nc => lastName nc == lastName oc)
 
 /-- `update e2e …`: the full path (deploy old, store values, update, inspect the stored values with the
 new code).  Direct oracle, independent of the model: an accepted update after which a check of the stored
